@@ -145,7 +145,9 @@ impl DumpHeader {
                 b".nroots" => nroots = parse_single_usize(value, line_no)?,
                 b".rootids" => {
                     header.rootids.clear();
-                    header.rootids.reserve(nroots);
+                    // `nroots` is untrusted, do not reserve more than the
+                    // line can contain
+                    header.rootids.reserve(std::cmp::min(nroots, value.len() / 2 + 1));
                     parse_edge_list(value, &mut header.rootids, line_no)?;
                 }
                 b".rootnames" => header.rootnames = parse_str_list(value, nroots),
@@ -578,7 +580,11 @@ where
     M::InnerNode: HasLevel,
     M::Terminal: ParseTagged<M::EdgeTag>,
 {
-    let mut nodes = EdgeVecDropGuard::new(manager, Vec::with_capacity(header.nnodes));
+    // `header.nnodes` is untrusted, so only use it as a hint up to some bound
+    let mut nodes = EdgeVecDropGuard::new(
+        manager,
+        Vec::with_capacity(std::cmp::min(header.nnodes, 1 << 16)),
+    );
     let mut line = Vec::new();
     let mut children = Vec::with_capacity(M::InnerNode::ARITY);
     for node_id in 1..=header.nnodes {
@@ -736,7 +742,11 @@ where
         Ok((id - 1) as usize)
     }
 
-    let mut nodes = EdgeVecDropGuard::new(manager, Vec::with_capacity(header.nnodes));
+    // `header.nnodes` is untrusted, so only use it as a hint up to some bound
+    let mut nodes = EdgeVecDropGuard::new(
+        manager,
+        Vec::with_capacity(std::cmp::min(header.nnodes, 1 << 16)),
+    );
     for node_id in 1..=header.nnodes {
         let node_code = read_unescape(&mut input)?;
         let var_code = Code::from((node_code >> 5) & 0b11);
@@ -882,7 +892,8 @@ const fn trim(s: &[u8]) -> &[u8] {
 ///
 /// All strings in the returned vector are guaranteed to be non-empty.
 fn parse_str_list(input: &[u8], capacity: usize) -> Vec<String> {
-    let mut res = Vec::with_capacity(capacity);
+    // `capacity` is untrusted, the list cannot have more elements than this
+    let mut res = Vec::with_capacity(std::cmp::min(capacity, input.len() / 2 + 1));
     let mut start = 0;
     for pos in memchr::memchr2_iter(b' ', b'\t', input).chain([input.len()]) {
         // skip empty strings
@@ -989,7 +1000,8 @@ parse_single_unsigned!(parse_single_usize, usize);
 
 /// Parse a space (or tab) separated list of integers
 fn parse_u32_list(input: &[u8], capacity: usize, line_no: usize) -> io::Result<Vec<u32>> {
-    let mut res = Vec::with_capacity(capacity);
+    // `capacity` is untrusted, the list cannot have more elements than this
+    let mut res = Vec::with_capacity(std::cmp::min(capacity, input.len() / 2 + 1));
     let mut i = 0u32;
     let mut num = false;
 
